@@ -58,6 +58,44 @@ Example C05_example_round_trip : exists text c sc d,
     POk c (Z.of_nat (length text)) sc (reparse_table rt_flags_pretty rt_ps (fa_flag 0) (Z.to_nat (100 - 1)) 2 rt_tree, d) /\ cerr c = 0.
 Proof. exact example_round_trip. Qed.
 
+(* ------------------------------------------------------------------ what the reparsed tree is *)
+(* THE SAME CONTENT: the reparsed tree and the original differ only in scalars equal to their default being present or
+   absent - [canon] drops them all, recursively; every accessor reads the same from both.  No typing hypothesis. *)
+Theorem C05_reparsed_same_content : forall F PS fa, pschema_okb PS = true ->
+  forall k t v, canon PS k t (reparse_table F PS fa k t v) = canon PS k t v.
+Proof. exact canon_reparse. Qed.
+Print Assumptions C05_reparsed_same_content.
+
+(* THE IDENTICAL TEXT: printing the reparsed tree under the same settings gives the same text, provided skip_default and
+   force_default are not set together and the parser keeps explicit defaults (force_add) or the printer has one of the two
+   default flags (without any of them a scalar that is present and equal to its default is printed and then lost:
+   C05_reprint_without_force_add_refuted). *)
+Theorem C05_reprint_identical : forall F PS E fa pmax root v, pschema_okb PS = true ->
+  negb (fl_skip_default F && fl_force_default F) && (fa || fl_skip_default F || fl_force_default F) = true ->
+  print_root F PS E pmax root (reparse_table F PS fa (Z.to_nat (pmax - 1)) root v) = print_root F PS E pmax root v.
+Proof. exact reprint_root. Qed.
+Print Assumptions C05_reprint_identical.
+
+(* STRICT OUTPUT IS JSON: with quoted names (unquote off; any indent, any of the other flags) the whole printed document is
+   accepted by the RFC 8259 recognizer [rfc8259_document] of Json/PrinterText.v (ws, objects, arrays, numbers without leading
+   zeros, true / false / null, strings through [rfc8259_string]) whenever every string of the tree is well-formed UTF-8. *)
+Theorem C05_strict_document : forall F PS E,
+  fl_unquote F = false -> pschema_okb PS = true -> rt_schema_okb PS = true -> enums_okb E = true ->
+  forall pmax root v text,
+  wt_table F PS E (Z.to_nat (pmax - 1)) root v = true -> utf8_value v = true ->
+  print_root F PS E pmax root v = Some text -> rfc8259_document text = true.
+Proof. exact strict_document. Qed.
+Print Assumptions C05_strict_document.
+
+(* the recognizer is not vacuous: it rejects unquoted names, leading zeros, trailing commas, trailing text, raw control
+   characters; the UTF-8 hypothesis is necessary (a lone 0xC3 byte in a string) *)
+Example C05_recognizer_rejects :
+  rfc8259_document [123;97;58;49;125] = false /\ rfc8259_document [123;34;97;34;58;48;49;125] = false /\
+  rfc8259_document [91;49;44;93] = false /\ rfc8259_document [91;93;32;120] = false /\ rfc8259_document [34;1;34] = false /\
+  rfc8259_document [123;34;115;34;58;34;195;34;125] = false /\
+  rfc8259_document [123;34;97;34;58;32;91;49;44;32;45;50;46;53;101;43;51;44;32;116;114;117;101;44;32;110;117;108;108;44;32;34;120;92;110;34;93;44;32;34;98;34;58;32;123;125;125;10] = true.
+Proof. vm_compute. repeat split. Qed.
+
 (* ------------------------------------------------------------------ the level hypothesis cannot be dropped: a FINDING *)
 (* 99 nested tables whose innermost holds an (empty) vector: well typed, printed by the printer (its limit is 99 tables; the
    generated verifier's budget of 100 levels is also enough: 99 tables + 1 vector), but the parser needs builder level 101
